@@ -1,7 +1,7 @@
 (* C14 — results do not depend on how the file happens to be written. *)
 From Coq Require Import List Arith Bool String Permutation.
 From PyHam Require Import Tax Ortho Loader Mapper Preds Hist Filter Spell.
-From PyHam.proofs Require Import LoaderFacts ExplicitFacts FilterFacts NamingFacts SpellFacts.
+From PyHam.proofs Require Import LoaderFacts ExplicitFacts FilterFacts NamingFacts SpellFacts HpermFacts.
 Import ListNotations.
 
 (* The listed rewritings are covered as follows.
@@ -11,14 +11,15 @@ Import ListNotations.
    wrappers or bare geneRefs - both load, and their top-level HOGs match the same histories: same taxon for
    every HOG, same members, same duplication grouping (`matches` is stated up to the order of children).
    Re-ordering members, lineages and families: the theorem holds for every ordered history, every
-   re-ordering of a history is a history, and `matches` does not mention order; re-ordering the families
-   with respect to a filter is c14_family_order; the member genes of every family are independent of the
-   spelling altogether (c14_members_any_spelling).
-   PARTIAL in two respects: the statement that a hierarchy matching a re-ordered history also matches the
-   original one is not proved as a lemma (it is immediate from the shape of `matches` but not
-   mechanised), and species/gene order and hash seeds are outside the model: every place where the code
-   iterates a set is compared order-free, and the check re-runs the real code under several
-   PYTHONHASHSEED values. *)
+   re-ordering of a history is a history (hperm: lineages, copies and members permuted at any depth), and a
+   hierarchy that matches a re-ordered history matches the original one (c14_order_irrelevant), so two files
+   listing the members in different orders load to hierarchies matching one and the same history
+   (c14_reordered_files); re-ordering the families with respect to a filter is c14_family_order; the member
+   genes of every family are independent of the spelling altogether (c14_members_any_spelling).
+   PARTIAL only in this respect: the order of species blocks and of <gene> declarations and Python's hash
+   seed / set iteration order are outside the model: every place where the code iterates a set is compared
+   order-free, and the check re-runs the real code under several PYTHONHASHSEED values and with species and
+   genes shuffled. *)
 Theorem c14_any_two_spellings : forall t d d' hs,
   Forall (species_sane t) (d_species d) -> NoDup (declared d) ->
   d_species d' = d_species d ->
@@ -41,6 +42,14 @@ Proof.
   - exists l, l'. auto.
 Qed.
 Print Assumptions c14_any_two_spellings.
+
+Theorem c14_order_irrelevant : forall h h', hperm h h' -> forall x, matches h x -> matches h' x.
+Proof. exact matches_hperm. Qed.
+Print Assumptions c14_order_irrelevant.
+
+Theorem c14_reordered_files : forall h h' x x', hperm h h' -> matches h x -> matches h' x' -> matches h x /\ matches h x'.
+Proof. exact reordered_same. Qed.
+Print Assumptions c14_reordered_files.
 
 Theorem c14_explicit_any_order : forall t genes h,
   WFh t genes h ->
@@ -71,3 +80,14 @@ Example c14_nonvacuous :
   WFh tr genes0 (XH [] [[XG "a1" [0]; XG "a2" [0]]; [XG "b1" [1]]; [XG "c1" [2]]]) /\
   WFh tr genes0 (XH [] [[XG "c1" [2]]; [XG "a2" [0]; XG "a1" [0]]; [XG "b1" [1]]]).
 Proof. cbn. repeat split; try discriminate; try reflexivity; repeat constructor; simpl; intuition discriminate. Qed.
+
+Example c14_hperm_nonvacuous :
+  hperm (XH [] [[XG "a1" [0]; XG "a2" [0]]; [XG "b1" [1]]; [XG "c1" [2]]]) (XH [] [[XG "c1" [2]]; [XG "a2" [0]; XG "a1" [0]]; [XG "b1" [1]]]).
+Proof.
+  eapply hp_trans.
+  - apply (hp_copies [] [] [XG "a1" [0]; XG "a2" [0]] [XG "a2" [0]; XG "a1" [0]] [[XG "b1" [1]]; [XG "c1" [2]]]). apply perm_swap.
+  - apply hp_lins. simpl.
+    apply (Permutation_trans (l' := [[XG "a2" [0]; XG "a1" [0]]; [XG "c1" [2]]; [XG "b1" [1]]])).
+    + constructor. apply perm_swap.
+    + apply perm_swap.
+Qed.
